@@ -17,6 +17,7 @@
 #[path = "/repo/src/ticket.rs"] mod ticket;
 #[path = "/repo/src/work.rs"] mod work;
 #[path = "/repo/src/downloader.rs"] mod downloader;
+#[path = "/repo/src/server.rs"] mod server;
 
 mod verif_sched;
 mod memsys;
